@@ -632,7 +632,7 @@ fn isolated_ontology(ids: &[u32]) -> Ontology {
     drive::build(&f, Mode::Minimal).expect("harness: cannot build an ontology of isolated terms for FromIterator<HpoTerm>")
 }
 
-fn construct(which: usize, seq: &[u32], ont: &Ontology) -> Result<HpoGroup, Diff> {
+fn construct(which: usize, seq: &[u32], ont: Option<&Ontology>) -> Result<HpoGroup, Diff> {
     at(CONSTRUCTORS[which]);
     Ok(match which {
         0 => HpoGroup::from(seq.iter().map(|x| tid(*x)).collect::<Vec<HpoTermId>>()),
@@ -640,6 +640,7 @@ fn construct(which: usize, seq: &[u32], ont: &Ontology) -> Result<HpoGroup, Diff
         2 => HpoGroup::from(seq.iter().map(|x| tid(*x)).collect::<HashSet<HpoTermId>>()),
         3 => seq.iter().map(|x| tid(*x)).collect::<HpoGroup>(),
         _ => {
+            let ont = ont.expect("harness: FromIterator<HpoTerm> needs an ontology");
             at("Ontology::hpo");
             let mut terms: Vec<HpoTerm> = vec![];
             for x in seq {
@@ -668,17 +669,18 @@ fn rust_constructor(which: usize, seq: &[u32]) -> String {
     format!("{head}{body}println!(\"{{:?}} len={{}}\", g.iter().map(|i| i.as_u32()).collect::<Vec<_>>(), g.len());\n")
 }
 
-/// All five constructors on one sequence; returns the number of executions.
-fn constructor_case(ctx: &mut Ctx, seq: &[u32], ont: &Ontology, probes: &[u32], futures: &[u32]) {
+/// All constructors on one sequence (FromIterator<HpoTerm> only when an ontology holding the ids is given).
+fn constructor_case(ctx: &mut Ctx, seq: &[u32], ont: Option<&Ontology>, probes: &[u32], futures: &[u32]) {
     let expect: BTreeSet<u32> = seq.iter().copied().collect();
+    let n = if ont.is_some() { CONSTRUCTORS.len() } else { CONSTRUCTORS.len() - 1 };
     ctx.state();
-    ctx.transitions((CONSTRUCTORS.len() * (seq.len() + futures.len())) as u64);
-    ctx.execs(CONSTRUCTORS.len() as u64);
-    ctx.validateds(CONSTRUCTORS.len() as u64);
+    ctx.transitions((n * (seq.len() + futures.len())) as u64);
+    ctx.execs(n as u64);
+    ctx.validateds(n as u64);
     if !strictly_ascending(seq) {
         ctx.nontrivial();
     }
-    for which in 0..CONSTRUCTORS.len() {
+    for which in 0..n {
         let r = guard(|| -> Result<(), Diff> {
             let g = construct(which, seq, ont)?;
             check_group(&g, &expect, probes, futures, CONSTRUCTORS[which])
@@ -716,7 +718,7 @@ fn constructors(ctx: &mut Ctx) {
             }
             let ont = ont.get_or_insert_with(|| isolated_ontology(ids));
             let seq: Vec<u32> = digits(k, len, 4).iter().map(|i| ids[*i]).collect();
-            constructor_case(ctx, &seq, ont, &probes, &probes);
+            constructor_case(ctx, &seq, Some(ont), &probes, &probes);
             if len == 3 {
                 ctx.sample(|| json!({"input": seq, "constructors": CONSTRUCTORS, "expected_content": seq.iter().copied().collect::<BTreeSet<u32>>()}));
             }
@@ -741,7 +743,7 @@ fn constructors(ctx: &mut Ctx) {
             let mut probes: Vec<u32> = (0..=n as u32 + 1).collect();
             probes.push(u32::MAX);
             let futures = [0, 1, n as u32 / 2, n as u32, n as u32 + 1, u32::MAX];
-            constructor_case(ctx, &seq, big, &probes, &futures);
+            constructor_case(ctx, &seq, Some(big), &probes, &futures);
             ctx.sample(|| json!({"size": n, "order": ORDERS[o], "input_head": &seq[..seq.len().min(6)]}));
         }
     }
@@ -757,7 +759,7 @@ fn constructors(ctx: &mut Ctx) {
         let mut probes: Vec<u32> = (0..=top + 1).collect();
         probes.push(u32::MAX);
         let futures = [0, 1, top / 2, top, top + 1, u32::MAX];
-        constructor_case(ctx, &seq, big, &probes, &futures);
+        constructor_case(ctx, &seq, Some(big), &probes, &futures);
         ctx.bump(if distinct.len() <= 30 { "far_duplicate_inputs_with_at_most_30_distinct_ids" } else { "far_duplicate_inputs_with_more_than_30_distinct_ids" }, 1);
         ctx.sample(|| json!({"pattern": what, "entries": seq.len(), "distinct_ids": distinct.len(), "input": seq}));
     }
@@ -1166,6 +1168,180 @@ fn algebra_large(ctx: &mut Ctx) {
     }
 }
 
+// ---- space: one large operand, one tiny operand ---------------------------------------------
+
+const ASYM_SIZES: [usize; 5] = [16, 17, 31, 33, 64];
+const SIG_FORMS_DISAGREE: &str = "result differs from the by-reference form of the same operator on the same operands";
+
+/// Large group 10, 20, .. 10*l and the universe around it: every member, every gap id
+/// (below: 0 and 5, between: 10i+5, above: 10l+5 and u32::MAX). Both ascending.
+fn asym_universe(l: usize) -> (Vec<u32>, Vec<u32>) {
+    let large: Vec<u32> = (1..=l as u32).map(|i| 10 * i).collect();
+    let mut u: Vec<u32> = vec![0, 5];
+    for m in &large {
+        u.push(*m);
+        u.push(*m + 5);
+    }
+    u.push(u32::MAX);
+    (large, u)
+}
+
+/// All subsets of `universe` whose smallest element is universe[first], of size 1..=max,
+/// ordered by size, then lexicographically.
+fn subsets_starting_at(universe: &[u32], first: usize, max: usize) -> Vec<Vec<u32>> {
+    let n = universe.len();
+    let mut out = vec![vec![universe[first]]];
+    if max >= 2 {
+        for j in first + 1..n {
+            out.push(vec![universe[first], universe[j]]);
+        }
+    }
+    if max >= 3 {
+        for j in first + 1..n {
+            for k in j + 1..n {
+                out.push(vec![universe[first], universe[j], universe[k]]);
+            }
+        }
+    }
+    out
+}
+
+/// All six operator forms on (a, b): each result against the model, and the forms among each other.
+fn asym_ops(ctx: &mut Ctx, a: &[u32], b: &[u32], va: usize, vb: usize, probes: &[u32], fp: &mut Fp) -> u64 {
+    let sa: BTreeSet<u32> = a.iter().copied().collect();
+    let sb: BTreeSet<u32> = b.iter().copied().collect();
+    let union: Vec<u32> = sa.union(&sb).copied().collect();
+    let inter: Vec<u32> = sa.intersection(&sb).copied().collect();
+    fp.set(&union);
+    fp.set(&inter);
+    let (eu, ei) = (Snap::expected(&union, probes), Snap::expected(&inter, probes));
+    let r = guard(|| -> Vec<(Option<usize>, Diff)> {
+        let mut out = vec![];
+        let ga = build_operand(a, va);
+        let gb = build_operand(b, vb);
+        for (g, set) in [(&ga, a), (&gb, b)] {
+            if let Some(d) = diff(&Snap::of(g, probes), &Snap::expected(set, probes), "HpoGroup (operand construction)", probes) {
+                out.push((None, d));
+                return out;
+            }
+        }
+        let snaps: Vec<Snap> = (0..FORMS.len()).map(|f| Snap::of(&apply(f, &ga, &gb), probes)).collect();
+        for f in 0..FORMS.len() {
+            if let Some(d) = diff(&snaps[f], if f < 3 { &eu } else { &ei }, FORMS[f].1, probes) {
+                out.push((Some(f), d));
+            }
+        }
+        for f in [1usize, 2, 4, 5] {
+            let base = if f < 3 { 0 } else { 3 };
+            if snaps[f] != snaps[base] {
+                out.push((Some(f), (FORMS[f].1.into(), SIG_FORMS_DISAGREE.into(), format!("`{}` gives {:?} (len {}), `{}` gives {:?} (len {})", FORMS[f].0, snaps[f].iter, snaps[f].len, FORMS[base].0, snaps[base].iter, snaps[base].len))));
+            }
+        }
+        out
+    });
+    let detail = |form: Option<usize>, what: String| {
+        let expr = form.map_or("&a | &b", |f| FORMS[f].0);
+        let expect = match form {
+            Some(f) if f >= 3 => &inter,
+            _ => &union,
+        };
+        json!({"a": a, "b": b, "expression": expr, "operand_construction": [BUILDS[va], BUILDS[vb]], "expected": expect, "difference": what, "rust": rust_algebra(a, va, Some((b, vb)), expr, None)})
+    };
+    match r {
+        Ok(found) => {
+            for (form, (site, sig, what)) in found {
+                ctx.violation(&site, &sig, detail(form, what));
+            }
+        }
+        Err(msg) => ctx.violation(at_get(), SIG_PANIC, detail(None, format!("panic: {msg}"))),
+    }
+    FORMS.len() as u64
+}
+
+fn algebra_asymmetric(ctx: &mut Ctx) {
+    let max = if ctx.tier.thorough() { 3 } else { 2 };
+    for &l in &ASYM_SIZES {
+        let (large, universe) = asym_universe(l);
+        let nu = universe.len();
+        ctx.space(
+            &format!("algebra/asymmetric/L{l}"),
+            &format!("large group of {l} ids 10,20,..,{} x every subset of size <= {max} of the {nu}-id universe (all its members incl. minimum and maximum + every gap id: 0 and 5 below, 10i+5 between, {} and u32::MAX above) as the small group x both operand orders x 6 operator forms {:?}; every result observed completely (exact ascending content, len, get, contains for every universe id, as_bytes) and the forms compared with each other; for 1-id subsets also `&a | id`, `&a + id`, `a + id`; one case = the subsets with a given smallest id", 10 * l, 10 * l + 5, FORMS.iter().map(|f| f.0).collect::<Vec<_>>()),
+        );
+        // case for the empty small group, then one per smallest element
+        for first in std::iter::once(None).chain((0..nu).map(Some)) {
+            if !ctx.take() {
+                continue;
+            }
+            let subsets = match first {
+                None => vec![vec![]],
+                Some(i) => subsets_starting_at(&universe, i, max),
+            };
+            let (mut n, mut nontrivial) = (0u64, 0u64);
+            for (k, small) in subsets.iter().enumerate() {
+                let shared = small.iter().filter(|x| large.binary_search(x).is_ok()).count();
+                if shared > 0 && shared < small.len() {
+                    nontrivial += 1;
+                }
+                let mut fp = Fp::new();
+                // operand constructions alternate so that every way of building a group meets every shape
+                let (vl, vs) = if k % 2 == 0 { (0, 2) } else { (3, 1) };
+                n += asym_ops(ctx, &large, small, vl, vs, &universe, &mut fp);
+                n += asym_ops(ctx, small, &large, vs, vl, &universe, &mut fp);
+                if small.len() == 1 {
+                    n += id_case(ctx, &large, small[0], &[vl], &universe, &[], &mut fp);
+                }
+                ctx.outcome(fp.0);
+            }
+            ctx.states(2 * subsets.len() as u64);
+            ctx.nontrivials(nontrivial);
+            ctx.transitions(n);
+            ctx.execs(n);
+            ctx.validateds(n);
+            if first == Some(nu - 2) {
+                ctx.sample(|| json!({"large": large, "small_groups": subsets, "operand_orders": ["large op small", "small op large"], "forms": FORMS.iter().map(|f| f.0).collect::<Vec<_>>()}));
+            }
+        }
+    }
+}
+
+/// Constructor inputs of the same asymmetric shape: a long sorted run plus a few ids
+/// (shared and new, below / inside / above the run) before or after it.
+fn constructors_asymmetric(ctx: &mut Ctx) {
+    const SHAPES: [&str; 3] = ["large ascending ++ small", "small ++ large ascending", "large descending ++ small descending"];
+    // the run of 64 costs as much as all the others together: thorough tier only
+    let sizes: &[usize] = if ctx.tier.thorough() { &ASYM_SIZES } else { &ASYM_SIZES[..4] };
+    for &l in sizes {
+        let (large, universe) = asym_universe(l);
+        let nu = universe.len();
+        ctx.space(
+            &format!("constructors/asymmetric/L{l}"),
+            &format!("input = run of the {l} ids 10,20,..,{} combined with every subset of size 1..=2 of the same {nu}-id universe as in algebra/asymmetric/L{l}, in the shapes {SHAPES:?} x the constructors From<Vec<HpoTermId>>, From<Vec<u32>>, From<HashSet<HpoTermId>>, FromIterator<HpoTermId> and (when the subset has neither 0 nor u32::MAX) FromIterator<HpoTerm>; result fully observed, then two further inserts; one case = the subsets with a given smallest id", 10 * l),
+        );
+        let mut ont: Option<Ontology> = None;
+        let futures = [5, 10 * l as u32];
+        for first in 0..nu {
+            if !ctx.take() {
+                continue;
+            }
+            let ont = ont.get_or_insert_with(|| isolated_ontology(&universe[1..nu - 1]));
+            for small in subsets_starting_at(&universe, first, 2) {
+                let with_terms = !small.contains(&0) && !small.contains(&u32::MAX);
+                for shape in 0..SHAPES.len() {
+                    let seq: Vec<u32> = match shape {
+                        0 => large.iter().chain(small.iter()).copied().collect(),
+                        1 => small.iter().chain(large.iter()).copied().collect(),
+                        _ => large.iter().rev().chain(small.iter().rev()).copied().collect(),
+                    };
+                    constructor_case(ctx, &seq, if with_terms { Some(&*ont) } else { None }, &universe, &futures);
+                }
+            }
+            if first == nu - 2 {
+                ctx.sample(|| json!({"run": large, "small": subsets_starting_at(&universe, first, 2), "shapes": SHAPES}));
+            }
+        }
+    }
+}
+
 // ------------------------------------------------------------------------------------------
 // ancestor queries
 // ------------------------------------------------------------------------------------------
@@ -1412,7 +1588,7 @@ fn ancestors_deep(ctx: &mut Ctx, seen: &mut BTreeSet<String>) {
 }
 
 pub fn run(ctx: &mut Ctx) {
-    ctx.rule = "histories: every insertion sequence over a 5-id alphabet up to the length bound, shortest first, executed step by step next to a BTreeSet (non-trivial = contains a repeated id and an id smaller than an earlier one); BFS: one case per distinct content, all insertion routes into it compared with each other and the model (non-trivial = at least two routes); inline-limit / constructors / algebra: one case per (order, ids, start) resp. input sequence resp. operand pair, distinct by construction (non-trivial: constructor input is not already strictly ascending, i.e. needs sorting or de-duplication; operands neither empty nor nested); ancestors: one case per labelled DAG (all ordered pairs) or per (deep shape, first term) (non-trivial = has a link); outcomes are fingerprints of the observed contents / results".into();
+    ctx.rule = "histories: every insertion sequence over a 5-id alphabet up to the length bound, shortest first, executed step by step next to a BTreeSet (non-trivial = contains a repeated id and an id smaller than an earlier one); BFS: one case per distinct content, all insertion routes into it compared with each other and the model (non-trivial = at least two routes); inline-limit / constructors / algebra: one case per (order, ids, start) resp. input sequence resp. operand pair (asymmetric spaces: one case per smallest id of the small group / extra ids, non-trivial = the small group shares an id with the large one and brings a new one), distinct by construction (non-trivial: constructor input is not already strictly ascending, i.e. needs sorting or de-duplication; operands neither empty nor nested); ancestors: one case per labelled DAG (all ordered pairs) or per (deep shape, first term) (non-trivial = has a link); outcomes are fingerprints of the observed contents / results".into();
     ctx.assumptions = vec![
         "any u32 is a legal id for HpoGroup (0 and u32::MAX included); the documentation states no restriction".into(),
         "HpoGroup::with_capacity: capacity is not observable; only the behaviour of the resulting empty group is checked".into(),
@@ -1428,6 +1604,8 @@ pub fn run(ctx: &mut Ctx) {
     constructors(ctx);
     algebra_small(ctx);
     algebra_large(ctx);
+    algebra_asymmetric(ctx);
+    constructors_asymmetric(ctx);
     let mut seen: BTreeSet<String> = BTreeSet::new();
     ancestors_dags(ctx, &mut seen);
     ancestors_deep(ctx, &mut seen);
